@@ -188,7 +188,7 @@ def nack_failure_session(kind, fail_mode):
 
         def sgate(msg, pdu):
             obs['announced'].append(bytes(pdu))
-            if struct.unpack('>I', bytes(pdu)[4:8])[0] & 0x80000000 and fail_mode == 'lost_during_sending_hook':
+            if struct.unpack('>I', bytes(pdu)[4:8])[0] & 0x80000000 and fail_mode in ('lost_during_sending_hook', 'cancelled_during_handover'):
                 smsc.conns[0].reset(delay=0.2)
                 return asyncio.sleep(0.6)
             return None
@@ -196,6 +196,8 @@ def nack_failure_session(kind, fail_mode):
 
         def rgate(msg, pdu):
             obs['received'].append(bytes(pdu))
+            if fail_mode == 'cancelled_during_handover' and bytes(pdu) == q:
+                return asyncio.sleep(3.0)       # the application is slow; start() is cancelled while it is busy with this PDU
             return None
         hook.received_gate = rgate
 
@@ -216,6 +218,14 @@ def nack_failure_session(kind, fail_mode):
 
         async def main():
             t = asyncio.create_task(esme.start())
+            if fail_mode == 'cancelled_during_handover':
+                await asyncio.sleep(2.5)
+                t.cancel()                      # the application ends the ESME: start() tears the session down and cancels the receiver
+                await asyncio.gather(t, return_exceptions=True)
+                await asyncio.sleep(6.0)
+                obs['start_done'] = False
+                obs['n_conns'] = len(smsc.conns)
+                return
             await asyncio.sleep(8.0)
             obs['start_done'] = t.done()
             obs['n_conns'] = len(smsc.conns)
@@ -384,7 +394,7 @@ def run(ctx):
     # ---- a request that is answered negatively (or normally) while the connection fails: the PDU was read, the received hook gets it once
     action_cases = []
     for kind in ('submit_sm', 'query_sm', 'broken_deliver_sm', 'deliver_sm', 'enquire_link', 'alert'):
-        for fail_mode in ('none', 'write_error', 'lost_during_sending_hook'):
+        for fail_mode in ('none', 'write_error', 'lost_during_sending_hook', 'cancelled_during_handover'):
             obs = nack_failure_session(kind, fail_mode)
             ctx.traces += 1
             ctx.case(('answer_fails', kind, fail_mode), nontrivial=True)
